@@ -57,10 +57,13 @@
                                    verbatim environments, with the optional argument of the signature
                                    written, or absent)
              | Vba2 ws od cd text  (argument position, stage (e7)) a verbatim argument [ws od text cd]
+             | Pre2 ws text post a (argument position) a comment [ws % text post] in front of the mandatory
+                                   argument [a] (only where the slot allows whitespace)
 
     NOT covered:
     paragraph-break whitespace in a context without the [\n\n] specials,
-    comments before an argument, a delimited argument directly nested in the body of another one.
+    a delimited argument directly nested in the body of another one, a comment between the
+    arguments of a call in front of a NON-mandatory argument that is written.
 
     Full statement (kept for reference, not proved):
       forall ctx d, ctx_wf ctx = true -> ok_doc ctx d = true ->
@@ -545,4 +548,22 @@ Example C02_par_after_control_word_nonvacuous :
   parse_top (unparse2 d) false default_ctx (walker_state default_ctx) = doc_result2 default_ctx d /\
   length (unparse2 d) = 39%nat /\
   length (fst (tree_of2 default_ctx (walker_state default_ctx) 0 d)) = 9%nat.
+Proof. vm_compute. repeat split. Qed.
+
+(** comments in front of a mandatory argument (where the slot allows whitespace):
+    [\section%c\n{a}\frac{1} %x\n %y\n 2\frac%\n\alpha%z\n~] — the star and bracket
+    arguments of [\section] are absent (the next token is a comment), two comments before a
+    one-character argument, an empty comment before a control-sequence argument *)
+Example C02_comment_before_argument_nonvacuous :
+  let d := {| d_items2 :=
+       [Mac2 [] [115;101;99;116;105;111;110] [] [Abs2; Abs2; Pre2 [] [99] [10] (Grp2 [] [Text2 [] [97]] [])];
+        Mac2 [] [102;114;97;99] [] [Grp2 [] [Text2 [] [49]] [];
+                                    Pre2 [32] [120] [10;32] (Pre2 [] [121] [10;32] (Text2 [] [50]))];
+        Mac2 [] [102;114;97;99] [] [Pre2 [] [] [10] (Mac2 [] [97;108;112;104;97] [] []);
+                                    Pre2 [] [122] [10] (Spc2 [] [126] [])]];
+     d_trail2 := [] |} in
+  ok_doc2 default_ctx d = true /\
+  parse_top (unparse2 d) false default_ctx (walker_state default_ctx) = doc_result2 default_ctx d /\
+  length (unparse2 d) = 49%nat /\
+  length (fst (tree_of2 default_ctx (walker_state default_ctx) 0 d)) = 3%nat.
 Proof. vm_compute. repeat split. Qed.
